@@ -150,6 +150,10 @@ expect("TarjanPearce mutant entry_index violates Inv: lowlink compared with the 
 r = tlc("algo/NegCycle", "MCNegCycleNeg_no_record.cfg", workers=8, timeout=600)
 expect("NegCycle mutant no_record violates VerdictOK: find_negative_cycle as shipped before 0a08617 (the relaxable edge not recorded)", any("Invariant VerdictOK is violated" in e for e in r.errors), str(r.errors[:1]))
 
+for mut, what in [("mixed_union", "union(a_order, b_index): a position mixed with a raw index"), ("raw_positions", "emitted edges carrying raw indices instead of positions")]:
+    r = tlc("algo/KruskalIx", "MCKruskalIxNeg_%s.cfg" % mut, workers=4, timeout=300)
+    expect("KruskalIx mutant %s violates Final: %s" % (mut, what), any("Invariant Final is violated" in e for e in r.errors), str(r.errors[:1]))
+
 bad = [r for r in results if not r["ok"]]
 os.makedirs(os.path.join(VERIF, "evidence"), exist_ok=True)
 json.dump({"tests": results, "failed": len(bad)}, open(os.path.join(VERIF, "evidence", "selftest.json"), "w"), indent=1)
